@@ -30,7 +30,7 @@ FLOORS = {
     "quick": {"build_vs_reference": 20000, "parse_roundtrip": 20000, "datagrams": 1500,
               "datagram_messages": 5000, "type_code_pairs": 110, "datagrams_after_a_malformed_one": 300, "datagrams_repeated_verbatim": 300,
               "datagrams_received_with_debug_logging_on": 600, "datagrams_received_with_debug_logging_off": 600,
-              "datagrams_sent_through_the_librarys_send": 400, "datagrams_over_1400_bytes_sent_through_the_librarys_send": 60},
+              "datagrams_sent_through_the_librarys_send": 400, "datagrams_delivered_to_a_protocol_only_its_adapter_refers_to": 200, "datagrams_over_1400_bytes_sent_through_the_librarys_send": 60},
     "thorough": {"build_vs_reference": 1000000, "parse_roundtrip": 1000000, "datagrams": 50000,
                  "type_code_pairs": 110},
 }
@@ -152,7 +152,7 @@ def check_message(H, m, suffix, ctx):
     return ok
 
 
-_SENT = [0]
+_SENT = [0, 0]
 
 
 class _Wire:
@@ -161,6 +161,14 @@ class _Wire:
 
     def sendto(self, data, addr=None):
         self.pieces.append(bytes(data))
+
+
+def _anonymous_protocol(S, got):
+    class P(S.SOMEIPDatagramProtocol):
+        def message_received(self, someip_message, addr, mc):
+            got.append((someip_message, addr, mc))
+
+    return P()
 
 
 class _Endpoint:
@@ -222,7 +230,23 @@ def check_datagram(S, H, msgs, multicast, ctx, endpoint=None, noise=None, repeat
         p.datagram_received(data, addr, multicast)
     else:
         # through the adapter that create_unicast_endpoint() / create_endpoints() put between the socket and the protocol object
-        S.DatagramProtocolAdapter(p, is_multicast=multicast).datagram_received(data, addr)
+        _SENT[1] += 1
+        if _SENT[1] % 3 == 1:
+            # the application keeps the transport (here: the adapter asyncio holds for it) and lets go of the protocol object
+            # it built in the factory call: `transport, _ = await Sniffer.create_unicast_endpoint(...)`
+            import gc
+
+            adapter = S.DatagramProtocolAdapter(_anonymous_protocol(S, got), is_multicast=multicast)
+            gc.collect()
+            try:
+                adapter.datagram_received(data, addr)
+            except ReferenceError as exc:
+                ctx.violation("adapter-lost-the-protocol-object-it-delivers-to", dict(exc=repr(exc)),
+                              dict(kind="dgram", msgs=msgs, multicast=multicast, noise=noise, repeat=repeat, debug=debug))
+                return False
+            ctx.count("datagrams_delivered_to_a_protocol_only_its_adapter_refers_to")
+        else:
+            S.DatagramProtocolAdapter(p, is_multicast=multicast).datagram_received(data, addr)
         ctx.count("datagrams_delivered_through_the_endpoint_adapter")
     if repeat:
         # the same bytes again from the same peer (an unchanged cyclic event bundle, a repeated fire-and-forget call with
